@@ -329,7 +329,7 @@ def run(case, ctx):
     return result(True, **info)
 
 
-LINE = re.compile(r"^\s*(-?\d+)  (...)  (\S+)  (.*)$")
+LINE = re.compile(r"^\s*(-?\d+)\s+(\S{3})\s+(\S+)\s*(.*)$")
 
 
 def check_dump(ctx, tdir, case, threads, streams, recs, info):
